@@ -196,7 +196,7 @@ def one_rotation(ck, codes, seeds, wcs, rot, W, first_vec, out):
     #  - accepted behaviours whose outcome is not the history's (the scripted poll was not reached before the deadline under load)
     #  - runs rejected only for a clock reading (an error slightly early / very late on an oversubscribed machine)
     CLOCK = ("Return:long-after-deadline", "Return:error-before-deadline")
-    for attempt, (mult, par) in enumerate(((3, 48), (6, 16))):
+    for attempt, (mult, par) in enumerate(((3, 48), (6, 16), (12, 8))):
         again = [r_ for r_ in accepted if outcome_differs(r_)]
         suspects = [r_ for r_, why in rejected if why in CLOCK or r_["steps"][-1]["k"] == "Timeout"]     # (Timeout: the harness gave up waiting)
         if not again and not suspects:
@@ -220,7 +220,7 @@ def one_rotation(ck, codes, seeds, wcs, rot, W, first_vec, out):
                 ck.traces_ok += 1
     for r_ in accepted:
         if outcome_differs(r_):
-            raise Infra("vector %d: the run is a legal behaviour but three times not the outcome the history requires: %s" % (r_["vec"], json.dumps(slim_run(r_))[:1500]))
+            raise Infra("vector %d: the run is a legal behaviour but four times not the outcome the history requires: %s" % (r_["vec"], json.dumps(slim_run(r_))[:1500]))
     out.setdefault("runs", runs)          # rotation 0, for the canaries
     return vs, accepted, rejected
 
